@@ -159,4 +159,152 @@ def rocTG (Z : Ind F) (p : Int) (inp : String) (hk : Z.kind = .roc p inp) (hp : 
     refine roc_congr _ _ p inp (sameCol_last inp H c _ Z.name (hind _ _ _)) ?_
     rw [Ctx.prevExists_append_cons, Ctx.prevExists_append_cons]
 
+/-! ### engines given as lawful components -/
+
+/-- an engine `E` (a function on candle lists: a tree's `calculate()`, or several of them in a row)
+that is the `pass` of a lawful tolerant component writing under `names` only -/
+structure EngComp (E : List (Candle F) → PyM (List (Candle F))) (names : List String) where
+  X : TComp F
+  law : TComp.Law X
+  pass_eq : ∀ cs, E cs = X.pass cs
+  wnames : ∀ k ∈ X.wkeys, k ∈ names
+
+/-- the component reads (besides the bare candles) entries under `rs` only -/
+def EngComp.ReadsWithin {E : List (Candle F) → PyM (List (Candle F))} {names : List String}
+    (S : EngComp E names) (rs : List String) : Prop := ∀ k ∈ S.X.rkeys, k ∈ rs
+
+/-- a tree as a lawful component -/
+abbrev TreeComp (A : Ind F) := EngComp (engineCalc A) A.allNames
+
+/-- `E₁` then `E₂` -/
+def engSeq (E₁ E₂ : List (Candle F) → PyM (List (Candle F))) (cs : List (Candle F)) : PyM (List (Candle F)) := do
+  let c ← E₁ cs
+  E₂ c
+
+section seq
+variable {E₁ E₂ : List (Candle F) → PyM (List (Candle F))} {n₁ n₂ : List String}
+
+/-- **Chaining**: the first engine neither reads nor writes what the second writes. -/
+def EngComp.seq (S₁ : EngComp E₁ n₁) (S₂ : EngComp E₂ n₂) (hok : TComp.SeqOK S₁.X S₂.X) :
+    EngComp (engSeq E₁ E₂) (n₁ ++ n₂) where
+  X := TComp.seq S₁.X S₂.X
+  law := TComp.seq_law S₁.law S₂.law hok
+  pass_eq := by
+    intro cs
+    show (do let c ← E₁ cs; E₂ c) = (do let c ← S₁.X.pass cs; S₂.X.pass c)
+    rw [S₁.pass_eq]
+    cases S₁.X.pass cs with
+    | error e => rfl
+    | ok c => exact S₂.pass_eq c
+  wnames := by
+    intro k hk
+    rcases List.mem_append.1 hk with h | h
+    · exact List.mem_append_left _ (S₁.wnames k h)
+    · exact List.mem_append_right _ (S₂.wnames k h)
+
+theorem EngComp.seq_reads (S₁ : EngComp E₁ n₁) (S₂ : EngComp E₂ n₂) (hok : TComp.SeqOK S₁.X S₂.X)
+    {r₁ r₂ : List String} (h₁ : S₁.ReadsWithin r₁) (h₂ : S₂.ReadsWithin r₂) :
+    (S₁.seq S₂ hok).ReadsWithin (r₁ ++ r₂) := by
+  intro k hk
+  rcases List.mem_append.1 hk with h | h
+  · exact List.mem_append_left _ (h₁ k h)
+  · exact List.mem_append_right _ (h₂ k h)
+
+/-- the side condition of chaining from name sets: the first engine reads within `r₁`, and neither `r₁`
+nor its own names meet the names of the second -/
+theorem seqOK_of_names (S₁ : EngComp E₁ n₁) (S₂ : EngComp E₂ n₂) {r₁ : List String}
+    (h₁ : S₁.ReadsWithin r₁) (hr : ∀ k ∈ r₁, k ∉ n₂) (hw : ∀ k ∈ n₁, k ∉ n₂) : TComp.SeqOK S₁.X S₂.X :=
+  ⟨fun k hk h => hr k (h₁ k hk) (S₂.wnames k h), fun k hk h => hw k (S₁.wnames k hk) (S₂.wnames k h)⟩
+
+end seq
+
+/-! ### the row-major spec of an engine -/
+
+/-- **An engine refines a row-major spec**: on a finished prefix followed by raw candles it returns iff
+the row-major run over the longer stream does, with the same candles (the analogue of `TreeSpec` for
+several trees computed one after the other on the same list). -/
+structure EngSpec (E : List (Candle F) → PyM (List (Candle F))) (names : List String) where
+  S : Gen.StepSpec F
+  law : Gen.StepLaw S
+  names_eq : S.names = names
+  engine : ∀ (raw₁ raw₂ done out : List (Candle F)), Gen.rowMajor S raw₁ = .ok done →
+    (∀ c ∈ raw₁, Plain c) → (∀ c ∈ raw₂, Plain c) →
+    (E (done ++ raw₂) = .ok out ↔ Gen.rowMajor S (raw₁ ++ raw₂) = .ok out)
+
+/-- an engine that is the pass of a lawful component has a row-major spec: one row step = the
+component's value on the prefix, stored on the candle -/
+def EngComp.spec {E : List (Candle F) → PyM (List (Candle F))} {names : List String} (C : EngComp E names) :
+    EngSpec E names where
+  S := C.X.spec names
+  law := TComp.stepLaw C.law names (fun c hc => C.law.raw_of c (fun k _ => hasKey_plain k c hc)) C.wnames
+  names_eq := rfl
+  engine := by
+    intro raw₁ raw₂ done out h₁ hp₁ hp₂
+    rw [Gen.rowMajor_append, h₁]
+    simp only [bind, Except.bind]
+    rw [TComp.rowFrom_spec, C.pass_eq]
+    have hs : C.X.Settled done :=
+      (Gen.rowMajor_shape (TComp.stepLaw C.law names
+        (fun c hc => C.law.raw_of c (fun k _ => hasKey_plain k c hc)) C.wnames) raw₁ done hp₁ h₁).2
+    exact C.law.pass_iff done raw₂ out hs
+      (fun r hr => C.law.raw_of r (fun k _ => hasKey_plain k r (hp₂ r hr)))
+
+/-- a `TreeComp` gives the tree's `TreeSpec` -/
+def TreeComp.treeSpec {A : Ind F} (C : TreeComp A) : TreeSpec A where
+  S := C.spec.S
+  law := C.spec.law
+  names_eq := C.spec.names_eq
+  engine := C.spec.engine
+
+/-! ### source trees as components -/
+
+/-- a leaf under a tolerant contract -/
+def TreeComp.ofLeaf (A : Ind F) (hl : IsLeaf A) (T : TContract A) : TreeComp A where
+  X := leafComp A T
+  law := leafComp_law A T
+  pass_eq := fun cs => calculate_leaf A hl _ cs (by have := fuelFor_ge cs; omega)
+  wnames := by
+    intro k hk
+    rw [allNames_leaf A hl]
+    exact hk
+
+theorem TreeComp.ofLeaf_reads (A : Ind F) (hl : IsLeaf A) (T : TContract A) :
+    (TreeComp.ofLeaf A hl T).ReadsWithin (A.name :: T.rkeys) := fun _ hk => hk
+
+section macd
+variable (name : String) (round : Nat) (fast slow signal : Int) (input : String)
+  (hf : 1 ≤ fast) (hs : 1 ≤ slow) (hsig : 1 ≤ signal) (hn : MacdNames name)
+  (hin : NoDot input ∧ input ∈ Candle.attrNames)
+
+/-- the MACD tree (two prior EMA helpers, own dict, managed signal EMA) -/
+def macdTreeComp : TreeComp (macdP (F := F) name round fast slow signal input) where
+  X := macdComp name round fast slow signal input hf hs hsig hn hin
+  law := macdComp_law name round fast slow signal input hf hs hsig hn hin
+  pass_eq := by
+    intro cs
+    rw [engineCalc_macd]
+    show _ = (do
+      let cs₁ ← (do let c ← leafCalc (macdEf name fast input) cs; leafCalc (macdEs name slow input) c)
+      Gen.nodeCalc (specWith (macdP name round fast slow signal input) (macdC name signal)) cs₁)
+    cases leafCalc (macdEf (F := F) name fast input) cs with
+    | error e => rfl
+    | ok c₁ => simp only [bind, Except.bind]
+  wnames := by
+    intro k hk
+    rw [allNames_macd]
+    simp [macdComp, TComp.seq, macdCompF, macdCompS, macdCompP, leafComp, dataComp, macdEf_name, macdEs_name,
+      macdP_name] at hk ⊢
+    rcases hk with h | h | h | h <;> simp [h]
+
+theorem macdTreeComp_reads :
+    (macdTreeComp (F := F) name round fast slow signal input hf hs hsig hn hin).ReadsWithin
+      (macdP (F := F) name round fast slow signal input).allNames := by
+  intro k hk
+  rw [allNames_macd]
+  simp [macdTreeComp, macdComp, TComp.seq, macdCompF, macdCompS, macdCompP, leafComp, dataComp, emaT,
+    macdEf_name, macdEs_name, macdP_name] at hk ⊢
+  trace_state; sorry
+
+end macd
+
 end Hex
